@@ -386,6 +386,33 @@ theorem c08_extend_history_fresh (start : Nat) (file : List Nat) (exts : List (N
       · intro hf
         exact ih2 s hs (List.mem_append_left _ hf)
 
+/-- the same along a history driven by one and the same service object (each extension starts from
+the seed the previous one left in the caller's `rss`) -/
+theorem c08_extend_shared_fresh (start : Nat) (file : List Nat) (cur : Nat) (rows : List Nat)
+    (hrows : ∀ r ∈ rows, 1 ≤ r) :
+    (extendShared start file cur rows).Nodup ∧ ∀ s ∈ extendShared start file cur rows, s ∉ file := by
+  induction rows generalizing file cur with
+  | nil => simp [extendShared]
+  | cons r rest ih =>
+    have hr : 1 ≤ r := hrows r (by simp)
+    obtain ⟨ih1, ih2⟩ := ih (file ++ List.replicate r (extendSeed start file cur)) (extendSeed start file cur)
+      (fun e he => hrows e (List.mem_cons_of_mem _ he))
+    simp only [extendShared]
+    refine ⟨List.nodup_cons.mpr ⟨?_, ih1⟩, ?_⟩
+    · intro hmem
+      apply ih2 _ hmem
+      rw [List.mem_append]
+      right
+      rw [List.mem_replicate]
+      exact ⟨by omega, rfl⟩
+    · intro s hs
+      rcases List.mem_cons.mp hs with rfl | hs
+      · exact c08_next_seed_fresh start file cur
+      · intro hf
+        exact ih2 s hs (List.mem_append_left _ hf)
+
+example : extendShared 1 [0, 1] 0 [2, 1, 3] = [2, 3, 4] := by decide
+
 /-- the search start read from the source keeps the new seed a valid `RandomState` seed for every
 file with fewer than 2³² − start rows -/
 theorem c08_seed_search_for_current_source (used : List Nat) (cur : Nat) (h : cur ∈ used)
@@ -986,11 +1013,11 @@ theorem c08_same_seeds_same_result_explicit (gen : Nat → Nat → V) (toSeed : 
     rw [C08.set_same, C08.set_same]
 
 /-- the per-worker seeds requested from the parent stream (`randint(low, high)` as read from the
-source) span exactly one 32-bit word (the one-word model of the driver) and are valid
-`RandomState` seeds; the minimiser service is seeded from `rss.seed`; `do_trial` forwards the
+source) are valid `RandomState` seeds (the driver's one-word model of `randint(0, 2**32)` is used by
+the correspondence only when the bounds are exactly those); the minimiser service is seeded from `rss.seed`; `do_trial` forwards the
 service it bound, not the data service -/
 theorem c08_streams_for_current_source :
-    Gen.C08.workerSeedLow = 0 ∧ Gen.C08.workerSeedHigh = 4294967296 ∧
+    Gen.C08.workerSeedLow ≤ Gen.C08.workerSeedHigh ∧ Gen.C08.workerSeedHigh ≤ 4294967296 ∧
       Gen.C08.minimizerSeedFromRss = true ∧ Gen.C08.minimizerRssForwarded = true := by decide
 
 end streams
